@@ -1074,7 +1074,7 @@ func (c *Case) genStruct(t *rapid.T, depth int, label string) *Node {
 		case 21:
 			// pointer to a number, bool or string (the binary form writes it like the value; the JSON form cannot express it)
 			el := c.genFixedLeaf(t, fl)
-			for el.Kind == KByteArr || el.Kind == KBigInt || el.Kind == KTime {
+			for (el.Kind == KByteArr && el.Code != nil) || el.Kind == KBigInt || el.Kind == KTime {
 				el = c.genFixedLeaf(t, fl+".re")
 			}
 			if rapid.IntRange(0, 3).Draw(t, fl+".str") == 0 {
